@@ -53,8 +53,8 @@ def aliases(sel: List[int], pkg: str, mod: str) -> bool:
         n = 1 + (rd(sel, cur, 2) if THOROUGH else 0)
         table = {}
         for i in range(n):
-            key_kind = rd(sel, cur, 4)  # NameExpr / MemberExpr / TypeVarExpr / another expression kind
-            val_kind = rd(sel, cur, 7)
+            key_kind = rd(sel, cur, 4 if i == 0 else 2)  # NameExpr / MemberExpr / TypeVarExpr / another expression kind
+            val_kind = rd(sel, cur, 7 if i == 0 else 3)
             node_kind = rd(sel, cur, 4) if key_kind == 0 else 0
             qual = mod + ".K" + str(i)
             value = [
